@@ -354,6 +354,54 @@ func buildShape(sh Shape, gpos bool) (int, gtab.Subtable, error) {
 	if sh.K == "off" {
 		return buildOff(sh.T, sh.Big)
 	}
+	if strings.HasSuffix(sh.K, "z") {
+		base := sh
+		base.K = strings.TrimSuffix(sh.K, "z")
+		t, st, err := buildShape(base, gpos)
+		if err != nil {
+			return 0, nil, err
+		}
+		// explicit class-0 entries below the lowest and above the highest glyph of every class
+		// definition; one class definition is replaced by an all-zero table
+		zero := func(cd classdef.Table) {
+			lo, hi := 70000, -1
+			for g := range cd {
+				if int(g) < lo {
+					lo = int(g)
+				}
+				if int(g) > hi {
+					hi = int(g)
+				}
+			}
+			if hi < 0 {
+				cd[7] = 0
+				return
+			}
+			if lo > 0 {
+				cd[glyph.ID(lo-1)] = 0
+			}
+			if hi < 0xFFFF {
+				cd[glyph.ID(hi+1)] = 0
+			}
+			if sh.V%2 == 1 && lo > 1 {
+				cd[0] = 0
+			}
+		}
+		switch l := st.(type) {
+		case *gtab.SeqContext2:
+			zero(l.Input)
+		case *gtab.ChainedSeqContext2:
+			zero(l.Input)
+			zero(l.Lookahead)
+			l.Backtrack = classdef.Table{7: 0, 9: 0}
+		case *gtab.Gpos2_2:
+			zero(l.Class1)
+			l.Class2 = classdef.Table{7: 0}
+		default:
+			return 0, nil, fmt.Errorf("kind %s has no class definitions", sh.K)
+		}
+		return t, st, nil
+	}
 	n, m, c, v := sh.N, sh.M, sh.C, sh.V
 	g := shapeGlyphs(n, c, 0)
 	ctxType := func(base int) int {
